@@ -415,6 +415,38 @@ def rule_h7(repo, col):
     col.floor("H7.memo_resets", n, 3)
 
 
+def rule_h9(repo, col):
+    """Term.__hash__ (and its inner helpers) is a function of the term's structure: it reads no memo field (an attribute that other methods fill lazily and mutators reset) except
+    the hash memo itself - a memo that is still empty would otherwise change which arguments enter the hash"""
+    c = repo.cls(MOD, "Term")
+    f = c.methods.get("__hash__")
+    if f is None:
+        raise AnalysisError("Term.__hash__ missing")
+    m = f.module
+    # memo fields: attributes assigned None in __init__ and assigned a computed value in exactly one other method
+    init = c.methods.get("__init__")
+    memo_fields = set()
+    for st in ast.walk(init.node):
+        if isinstance(st, ast.Assign) and isinstance(st.value, ast.Constant) and st.value.value is None:
+            for t_ in st.targets:
+                if is_self_attr(t_):
+                    memo_fields.add(t_.attr)
+    own = set()
+    for st in ast.walk(f.node):
+        if isinstance(st, ast.Assign):
+            for t_ in st.targets:
+                if is_self_attr(t_):
+                    own.add(t_.attr)
+    memo_fields -= own
+    if not memo_fields:
+        raise AnalysisError("Term: memo fields not found")
+    reads = [x for x in ast.walk(f.node) if isinstance(x, ast.Attribute) and isinstance(x.ctx, ast.Load) and x.attr in memo_fields and not (isinstance(x.value, ast.Name) and False)]
+    col.decide("H9", m, reads[0] if reads else f.node, not reads, "Term.__hash__ reads no lazily filled memo field (%s)" % ", ".join(sorted(memo_fields)),
+               "Term.__hash__ reads the memo field %s directly: the field is None until some other method has filled it, so two structurally equal terms hash differently depending on "
+               "what was computed on them before (a list argument that was never measured counts as length 0) - equal terms with different hashes" % (norm(reads[0]) if reads else ""),
+               construct="Term.__hash__: reads a lazily filled memo field", function="Term.__hash__")
+
+
 def run(repo, col):
     col.rule("H1", "__eq__ and __hash__ defined together")
     col.rule("H2", "cross-class equality requires a shared hash")
@@ -432,3 +464,5 @@ def run(repo, col):
     rule_h5_h6(repo, col, root)
     col.rule("H7", "memo invalidation: mutators of key attributes reset hash / signature / printed text")
     rule_h7(repo, col)
+    col.rule("H9", "the hash reads no lazily filled memo field")
+    rule_h9(repo, col)
